@@ -108,6 +108,7 @@ theorem stepH_inv (w : World) (op : HOp) (hop : op.okAt w) (h : Inv w) : Inv (st
       simp [stepH] at hf; subst hf
       exact hop.2 m' s c' hp h1 h2
   | setClock t => exact ⟨hg, fun m' s c f hp hf => hc m' s c f hp hf⟩
+  | respell n => exact ⟨hg, fun m' s c f hp hf => hc m' s c f hp hf⟩
   | construct p => exact ⟨construct_good w p (guard_all p) hg, construct_coherent defaultWriter w p hc⟩
 
 theorem runH_inv : ∀ (h : List HOp) (w : World), HistOkFrom w h → Inv w → Inv (runH w h) := by
